@@ -42,6 +42,32 @@ def write_generated(files):
     return changed
 
 
+PRIVATE_DRIVER = None      # this process's own copy of the driver binary, taken under the build lock
+
+
+def _take_private_driver():
+    """Another check running at the same time (on another tree) may relink lean/.lake/build/bin/aiodriver while
+    this one is using it: each process runs a private copy taken while it still holds the build lock."""
+    global PRIVATE_DRIVER
+    import atexit, shutil
+    if not os.path.exists(DRIVER):
+        return
+    try:
+        base = os.path.join(VERIF, ".locks")
+        os.makedirs(base, exist_ok=True)
+        d = tempfile.mkdtemp(prefix="aiodriver-", dir=base)
+        dst = os.path.join(d, "aiodriver")
+        shutil.copy2(DRIVER, dst)
+        os.chmod(dst, 0o755)
+        old = PRIVATE_DRIVER
+        PRIVATE_DRIVER = dst
+        atexit.register(shutil.rmtree, d, True)
+        if old:
+            shutil.rmtree(os.path.dirname(old), ignore_errors=True)
+    except OSError:
+        PRIVATE_DRIVER = None
+
+
 def lake_build(targets, timeout=1500):
     """returns (ok, log)"""
     with _Lock():
@@ -56,6 +82,8 @@ def lake_build(targets, timeout=1500):
             raise MachineryError("lake build timed out")
         except FileNotFoundError:
             raise MachineryError("lake not found on PATH")
+        if r.returncode == 0 and "aiodriver" in targets:
+            _take_private_driver()
         return r.returncode == 0, r.stdout, time.time() - t0
 
 
@@ -160,7 +188,8 @@ class Driver:
     """batch interface to the native model driver"""
 
     def __init__(self):
-        self.available = os.path.exists(DRIVER)
+        self.path = PRIVATE_DRIVER if PRIVATE_DRIVER and os.path.exists(PRIVATE_DRIVER) else DRIVER
+        self.available = os.path.exists(self.path)
         self.lines = 0
 
     def run(self, lines, timeout=1200):
@@ -168,10 +197,12 @@ class Driver:
             return None
         data = "".join(l + "\n" for l in lines)
         try:
-            r = subprocess.run([DRIVER], input=data, stdout=subprocess.PIPE, stderr=subprocess.PIPE,
+            r = subprocess.run([self.path], input=data, stdout=subprocess.PIPE, stderr=subprocess.PIPE,
                                text=True, timeout=timeout)
         except subprocess.TimeoutExpired:
             raise MachineryError("model driver timed out")
+        except OSError as e:
+            raise MachineryError(f"model driver could not be started: {e}")
         if r.returncode != 0:
             raise MachineryError(f"model driver crashed: rc={r.returncode} {r.stderr[-400:]}")
         outs = r.stdout.split("\n")
